@@ -437,11 +437,18 @@ func exploreSeq(di int, d *doc, mi int) {
 		if err != nil {
 			return "", err
 		}
+		// what the scan found: every object with its position, type and Broken flag
+		var sb strings.Builder
+		for si, sec := range fi.Sections {
+			for _, o := range sec.Objects {
+				fmt.Fprintf(&sb, "s%d:%v@%d-%d:%s/%s:broken=%v;", si, o.Reference, o.ObjStart, o.ObjEnd, o.Type, o.Subtype, o.Broken)
+			}
+		}
 		r, err := fi.MakeReader(&pdf.ReaderOptions{ErrorHandling: m.m, Password: d.pw})
 		if err != nil {
 			return "", err
 		}
-		return metaString(r), nil
+		return sb.String() + metaString(r), nil
 	}
 	var labels []label
 	src := &faultSrc{data: d.data, labels: &labels}
@@ -481,6 +488,7 @@ func main() {
 	R := rand.New(rand.NewPCG(e.Seed, 1919))
 	var docs []*doc
 	docs = append(docs, handDocs()...)
+	docs = append(docs, indirectParmDocs()...)
 	docs = append(docs, policyDocs()...)
 	nFixed := len(docs)
 	docs = append(docs, lookaheadDocs()...)
